@@ -5,5 +5,6 @@ CONSTANTS
   MaxLog = 4
   SnapshotHasBook = TRUE
   BootHasAddr = TRUE
-INVARIANT ViewOK
+  ForgetClientOnRemove = TRUE
+INVARIANTS ViewOK NoDeadClient
 CHECK_DEADLOCK FALSE
